@@ -56,6 +56,7 @@ from twisted.internet import defer, task
 from twisted.internet.defer import CancelledError as t_CancelledError
 from twisted.internet.defer import DeferredList, inlineCallbacks, returnValue
 from twisted.internet.endpoints import HostnameEndpoint
+from twisted.internet.error import ConnectingCancelledError
 from twisted.python.compat import nativeString
 from twisted.python.compat import unicode as _unicode
 from twisted.python.failure import Failure
@@ -1001,7 +1002,10 @@ class KafkaClient(object):
         # reload metadata whether the partition is not available
         # or has no leader (broker is None)
         if self.topics_to_brokers.get(key) is None:
-            yield self.load_metadata_for_topics(topic)
+            loaded = yield self.load_metadata_for_topics(topic)
+            if loaded is None:
+                # The load was cancelled, which means that we were
+                raise t_CancelledError()
 
         if key not in self.topics_to_brokers:
             raise PartitionUnavailableError("%s not available" % str(key))
@@ -1190,12 +1194,17 @@ class KafkaClient(object):
             ep = self._endpoint_factory(self.reactor, host, port)
             try:
                 protocol = yield ep.connect(_bootstrapFactory)
+            except (t_CancelledError, ConnectingCancelledError):
+                # We have been cancelled: stop, rather than try the next host
+                raise t_CancelledError()
             except Exception as e:
                 log.debug("%s: bootstrap connect to %s:%s -> %s", self, host, port, e)
                 continue
 
             try:
                 response = yield protocol.request(request).addTimeout(self.timeout, self.reactor)
+            except t_CancelledError:
+                raise
             except Exception:
                 log.debug(
                     "%s: bootstrap %s to %s:%s failed",
